@@ -507,7 +507,11 @@ Definition empty_file : fileent := mkFile false None None None None None.
 Definition parse_files (lim : Z) : reader (list fileent * list bool) := fun bs =>
   do (n, bs) <- rd_number bs;
   if lim <? n then Err EFuel else
-  parse_file_props (S (length bs)) lim (repeat empty_file (Z.to_nat n)) [] 0 bs.
+  do (r, bs') <- parse_file_props (S (length bs)) lim (repeat empty_file (Z.to_nat n)) [] 0 bs;
+  (* the EmptyFile bit is kept with each empty-stream entry: f["emptyfile"] = next(flags, False) *)
+  let '(files, ef) := r in
+  let nes := Z.to_nat (count_true (map e_emptystream files)) in
+  Ok ((files, firstn nes (ef ++ repeat false nes)), bs').
 
 (* Header._extract_header_info (after the HEADER id 0x01) *)
 Definition parse_header_body (lim : Z) : reader header := fun bs =>
@@ -700,9 +704,14 @@ Definition write_names (files : list fileent) : res bytes :=
 Definition write_files (pos : Z) (files : list fileent) (emptyfiles : list bool) : res bytes :=
   do n <- wr_number (zlen files);
   let es := map e_emptystream files in
+  (* EmptyFile: one bit per empty-stream entry (taken from the vector that was read; false for new entries) *)
+  let nes := count_true es in
+  let efl := firstn (Z.to_nat nes) (emptyfiles ++ repeat false (Z.to_nat nes)) in
   do a <- (if any_true es then
-             do sz <- wr_number ((zlen files + 7) / 8); Ok ([14] ++ sz ++ wr_bits es)
-           else if any_true emptyfiles then Ok ([15] ++ wr_bits emptyfiles)
+             do sz <- wr_number ((zlen files + 7) / 8);
+             do b <- (if any_true efl then do sz2 <- wr_number ((nes + 7) / 8); Ok ([15] ++ sz2 ++ wr_bits efl)
+                      else Ok []);
+             Ok ([14] ++ sz ++ wr_bits es ++ b)
            else Ok []);
   let p := pos + 1 + zlen n + zlen a in
   let padlen0 := (- p) mod 4 in
